@@ -491,6 +491,14 @@ func c33Choices(p []c33Pend) []c33Choice {
 // materialise builds the crash state: inode `dev` (if >0) uses choice ch, all
 // other inodes keep everything (baseAll) or nothing.
 func (r *c33Replay) materialise(dev int, ch c33Choice, baseAll bool) *c33FS {
+	if dev > 0 {
+		return r.materialiseMulti(map[int]c33Choice{dev: ch}, baseAll)
+	}
+	return r.materialiseMulti(nil, baseAll)
+}
+
+// materialiseMulti: every inode in devs uses its own choice.
+func (r *c33Replay) materialiseMulti(devs map[int]c33Choice, baseAll bool) *c33FS {
 	out := c33NewFS(false)
 	for d := range r.dirs {
 		out.dirs[d] = true
@@ -507,7 +515,7 @@ func (r *c33Replay) materialise(dev int, ch c33Choice, baseAll bool) *c33FS {
 		if baseAll {
 			c.Keep = len(mi.pending)
 		}
-		if id == dev {
+		if ch, ok := devs[id]; ok {
 			c = ch
 		}
 		for k := 0; k < c.Keep && k < len(mi.pending); k++ {
@@ -1466,6 +1474,9 @@ func c33Observe(n *c33Node, ref *c33Ref, full bool) (*c33Obs, error) {
 		}
 		if len(resp.Groups) > 0 {
 			for _, rg := range resp.Groups {
+				if rg.ErrorCode == kerr.GroupIDNotFound.Code {
+					continue // group unknown: no committed offsets
+				}
 				if rg.ErrorCode != 0 {
 					return nil, fmt.Errorf("offsetfetch %s: %v", g, kerr.ErrorForCode(rg.ErrorCode))
 				}
@@ -1476,7 +1487,7 @@ func c33Observe(n *c33Node, ref *c33Ref, full bool) (*c33Obs, error) {
 				}
 			}
 		} else {
-			if resp.ErrorCode != 0 {
+			if resp.ErrorCode != 0 && resp.ErrorCode != kerr.GroupIDNotFound.Code {
 				return nil, fmt.Errorf("offsetfetch %s: %v", g, kerr.ErrorForCode(resp.ErrorCode))
 			}
 			for _, t := range resp.Topics {
@@ -1995,8 +2006,12 @@ type c33Job struct {
 	lostAt  int
 }
 
+const c33ProductCap = 400
+
 type c33Stats struct {
-	mu          sync.Mutex
+	mu              sync.Mutex
+	productPrefixes int64
+	boundedPrefixes int64
 	enumerated  int64
 	distinct    int64
 	transitions int64
@@ -2056,7 +2071,13 @@ func c33Recover(j *c33Job, vs *c33Viols, st *c33Stats, curFile string) {
 			return
 		}
 		j.fsys = snapshot
-		vs.add(&c33Witness{Key: prefixKey + class + ":" + j.kind, What: fmt.Sprintf("workload %s, crash after op %d/%d [%s] (%s), loss pattern %s: %s", l.name, j.prefix, len(l.fs.log), c33LastOp(l, j.prefix), c33StepAt(l, j.prefix), j.pattern, what),
+		suffix := j.kind
+		if class == "uncommitted-txn-visible" && c33IndexBehindSegment(snapshot) {
+			// name the cause instead of the loss-pattern kind: the key is
+			// the same for every way of losing the index entry
+			suffix = "segment-durable-index-entry-missing-or-torn"
+		}
+		vs.add(&c33Witness{Key: prefixKey + class + ":" + suffix, What: fmt.Sprintf("workload %s, crash after op %d/%d [%s] (%s), loss pattern %s: %s", l.name, j.prefix, len(l.fs.log), c33LastOp(l, j.prefix), c33StepAt(l, j.prefix), j.pattern, what),
 			Workload: l.name, WIdx: j.widx, Prefix: j.prefix, Rank: j.rank, Artefact: artefact(extra)})
 	}
 	done := make(chan struct{})
@@ -2110,9 +2131,33 @@ func c33Recover(j *c33Job, vs *c33Viols, st *c33Stats, curFile string) {
 	st.mu.Unlock()
 }
 
+// c33IndexBehindSegment reports whether some segment file of the crash state
+// holds more whole batches than its index file holds valid entries.
+func c33IndexBehindSegment(m *c33FS) bool {
+	for p, d := range m.files {
+		if !strings.HasSuffix(p, ".dat") || !strings.Contains(p, "/partitions/") {
+			continue
+		}
+		bs, _ := c33ParseBatches(d.data)
+		valid := 0
+		if x, ok := m.files[strings.TrimSuffix(p, ".dat")+".idx"]; ok {
+			for o := 0; o+indexEntrySize <= len(x.data); o += indexEntrySize {
+				if _, _, _, ok := decodeIndexEntry(x.data[o : o+indexEntrySize]); !ok {
+					break
+				}
+				valid++
+			}
+		}
+		if len(bs) > valid {
+			return true
+		}
+	}
+	return false
+}
+
 // c33Enumerate walks every prefix of the log and every (deviation-bounded)
 // loss pattern and hands the distinct crash states to the workers.
-func c33Enumerate(l *c33Live, widx int, renameVariant bool, jobs chan<- *c33Job, st *c33Stats, r *ev.Run) {
+func c33Enumerate(l *c33Live, widx int, renameVariant, fullProduct bool, jobs chan<- *c33Job, st *c33Stats, r *ev.Run) {
 	log := l.fs.log
 	rep := c33NewReplay()
 	seen := map[uint64]struct{}{}
@@ -2164,6 +2209,52 @@ func c33Enumerate(l *c33Live, widx int, renameVariant bool, jobs chan<- *c33Job,
 		} else {
 			emit(i, rep.materialise(0, c33Choice{}, true), "all-kept", 1, "all unsynced writes kept", "", 0)
 			emit(i, rep.materialise(0, c33Choice{}, false), "none-kept", 2, "no unsynced write kept", "", 0)
+			// thorough: full cartesian product across files when it is small
+			product := 1
+			lists := make([][]c33Choice, len(devs))
+			for k, id := range devs {
+				lists[k] = c33Choices(rep.inodes[id].pending)
+				if product <= c33ProductCap {
+					product *= len(lists[k])
+				}
+			}
+			if fullProduct && len(devs) > 1 && product <= c33ProductCap {
+				st.mu.Lock()
+				st.productPrefixes++
+				st.mu.Unlock()
+				idx := make([]int, len(devs))
+				for {
+					m := map[int]c33Choice{}
+					kind, rank := "partial", 3
+					var desc []string
+					for k, id := range devs {
+						ch := lists[k][idx[k]]
+						m[id] = ch
+						if ch.Torn >= 0 {
+							kind, rank = "torn", 4
+						}
+						desc = append(desc, fmt.Sprintf("%s: %s of %d", inoPath[id], ch, len(rep.inodes[id].pending)))
+					}
+					emit(i, rep.materialiseMulti(m, true), kind, rank, "product{"+strings.Join(desc, "; ")+"}", "", 0)
+					k := 0
+					for ; k < len(idx); k++ {
+						idx[k]++
+						if idx[k] < len(lists[k]) {
+							break
+						}
+						idx[k] = 0
+					}
+					if k == len(idx) {
+						break
+					}
+				}
+				goto variants
+			}
+			if len(devs) > 1 {
+				st.mu.Lock()
+				st.boundedPrefixes++
+				st.mu.Unlock()
+			}
 			for _, id := range devs {
 				pend := rep.inodes[id].pending
 				for _, ch := range c33Choices(pend) {
@@ -2191,6 +2282,7 @@ func c33Enumerate(l *c33Live, widx int, renameVariant bool, jobs chan<- *c33Job,
 				}
 			}
 		}
+	variants:
 		if renameVariant {
 			// renames after the last Sync in the prefix are lost together
 			// with every later namespace operation
@@ -2427,12 +2519,12 @@ func c33Child() {
 				}
 			}()
 		}
-		c33Enumerate(l, widx, thorough, jobs, st, r)
+		c33Enumerate(l, widx, thorough, thorough, jobs, st, r)
 		close(jobs)
 		wg.Wait()
 	}
 
-	r.Rule("every prefix of the recorded fs-operation log of each workload (crash after operation i, all i) x loss patterns of data written after the last Sync of each file: {all kept, none kept, every proper prefix of the unsynced ops, the last kept write torn at byte 1 / middle / len-1}; deviation-bounded across files (one file deviates, the others all-kept or none-kept); directory operations durable in order (the source never syncs directories); thorough adds the variant where a rename not followed by any Sync is lost with all later namespace operations. A state is distinct by content hash of the materialised file system + the set of acknowledged/issued operations at that point; each distinct state is recovered by a fresh real cluster and read back through the protocol")
+	r.Rule("every prefix of the recorded fs-operation log of each workload (crash after operation i, all i) x loss patterns of data written after the last Sync of each file: {all kept, none kept, every proper prefix of the unsynced ops, the last kept write torn at byte 1 / middle / len-1}; across files: quick is deviation-bounded (one file deviates, the others all-kept or none-kept), thorough takes the full cartesian product whenever it has <= 400 combinations (else deviation-bounded; counted); directory operations durable in order (the source never syncs directories); thorough adds the variant where a rename not followed by any Sync is lost with all later namespace operations. A state is distinct by content hash of the materialised file system + the set of acknowledged/issued operations at that point; each distinct state is recovered by a fresh real cluster and read back through the protocol")
 	r.Assume("the response observed by the client is the acknowledgement; its ack point is the fs-log length when the response arrived (a Sync issued after sending the response but before the client observed it would be missed)",
 		"write/truncate of one file become durable in issue order (prefix loss + one torn write), fsync makes all earlier data operations of that inode durable",
 		"forEachPartition runs partition saves in goroutines: the interleaving of their fs operations in the recorded log is whatever this run produced",
@@ -2447,7 +2539,9 @@ func c33Child() {
 	r.Set("distinct_recovered_outcomes", len(st.outcomes))
 	r.Set("states_by_pattern_kind", st.byKind)
 	r.Set("workloads", sums)
-	r.Set("bound_completed", fmt.Sprintf("%d workload(s), all prefixes, all per-file loss patterns (deviation bound 1)", len(builders)))
+	r.Set("prefixes_with_several_unsynced_files_full_product", st.productPrefixes)
+	r.Set("prefixes_with_several_unsynced_files_deviation_bounded", st.boundedPrefixes)
+	r.Set("bound_completed", fmt.Sprintf("%d workload(s), all prefixes, all per-file loss patterns (see rule for the cross-file bound)", len(builders)))
 	for k, n := range vs.info {
 		r.Set(k, n)
 	}
